@@ -26,6 +26,9 @@ func main() {
 			"% converts both operands to int64 (documented); + on strings concatenates",
 		},
 		EvalCounter: "validations",
+		// every validated expression is a struct type of its own, and neither reflect nor the
+		// validator's cache ever frees one: a worker hands over to a fresh process in time
+		RecycleAfter: func(string) uint64 { return 40000 },
 		Shards: func(t string) int {
 			if t == "thorough" {
 				return 16
